@@ -40,9 +40,9 @@ type c16Case struct {
 	KeyExists string   `json:"key_exists"`
 	Pre       string   `json:"preexisting"` // "", name of a key that already exists on the target
 	TargetDB  int      `json:"target_db"`
-	Filter    string   `json:"filter"`         // "", "key-white-p", "db-black-1"
-	Vanish    string   `json:"vanish"`         // "", "<db>/<key>@dump", "<db>/<key>@pttl"
-	KeyFile   int      `json:"key_file_lines"` // -1: SCAN mode; n: key file with the first n keys of db 0 (+ missing ones)
+	Filter    string   `json:"filter"`               // "", "key-white-p", "db-black-1"
+	Vanish    string   `json:"vanish"`               // "", "<db>/<key>@dump", "<db>/<key>@pttl"
+	KeyFile   int      `json:"key_file_lines"`       // -1: SCAN mode; n: key file with the first n keys of db 0 (+ missing ones)
 	Blank     int      `json:"blank_line,omitempty"` // key file: 0 none, k: an empty line in front of line k-1 (k-1 = n: at the end)
 	// BigFile: the key file is longer than the line scanner's 4 KiB buffer: 1200 lines naming absent
 	// keys with the real keys at lines BigFile.. (0: ordinary small file)
